@@ -317,4 +317,126 @@ int main(int argc, char** argv) {
   return 2;
 }
 
-int api_mode(const std::string&) { return 2; }
+// ---------------------------------------------------------------------------
+// api mode: black-box sessions on deployed stock schemas.
+// stdin, one case per line:  <schema> <options: a=1,b=0 | -> <input keys> <nops> <op>*
+//   ops: x | h i | o i | v 0/1 | i from n | NP | PP | NC | PC
+// stdout per case: "PS <page size> ; <obs> ; ... ; LC <n> <idx=cps:hexcomment>* ; ND <0/1>"
+//   where LC is the whole list read by the iterator in a *fresh* session with the same
+//   schema, options and input (items carry text and hex-encoded comment).
+struct ApiSess { RimeSessionId a = 0, b = 0; };
+
+static std::string item_hex(size_t idx, const char* text, const char* comment) {
+  return std::to_string(idx) + "=" + cps_of(text ? text : "") + ":" + (comment && *comment ? hex(std::string(comment)) : "-");
+}
+
+static bool type_input(RimeApi* api, RimeSessionId s, const std::string& keys) {
+  api->clear_composition(s);
+  for (char ch : keys) api->process_key(s, (unsigned char)ch, 0);
+  return true;
+}
+
+int api_mode(const std::string& work) {
+  Env env;
+  if (!env.start(work + "/shared", work + "/user", false)) return 3;
+  RimeApi* api = env.api;
+  std::map<std::string, ApiSess> sessions;
+  std::string line;
+  while (std::getline(std::cin, line)) {
+    Tok tk;
+    { std::stringstream ss(line); std::string x; while (ss >> x) tk.t.push_back(x); }
+    if (tk.t.empty()) continue;
+    std::string schema = tk.next(), opts = tk.next(), keys = tk.next();
+    std::string skey = schema + "|" + opts;
+    if (!sessions.count(skey)) {
+      ApiSess as;
+      as.a = api->create_session();
+      as.b = api->create_session();
+      for (RimeSessionId s : {as.a, as.b}) {
+        if (!api->select_schema(s, schema.c_str())) { fprintf(stderr, "select_schema %s failed\n", schema.c_str()); return 4; }
+        if (opts != "-") {
+          std::stringstream os(opts);
+          std::string kv;
+          while (std::getline(os, kv, ',')) {
+            size_t eq = kv.find('=');
+            api->set_option(s, kv.substr(0, eq).c_str(), kv.substr(eq + 1) == "1" ? True : False);
+          }
+        }
+      }
+      sessions[skey] = as;
+    }
+    RimeSessionId sid = sessions[skey].a, fresh = sessions[skey].b;
+    type_input(api, sid, keys);
+    Context* ctx = Service::instance().GetSession(sid)->context();
+    Schema* sch = Service::instance().GetSession(sid)->schema();
+    std::string out = "PS " + std::to_string(sch ? sch->page_size() : 5) + " ; ";
+    long nops = tk.num();
+    for (long k = 0; k < nops && tk.ok; ++k) {
+      std::string o = tk.next();
+      std::ostringstream r;
+      if (o == "x") {
+        RIME_STRUCT(RimeContext, rc);
+        api->get_context(sid, &rc);
+        if (!rc.menu.candidates && rc.menu.num_candidates == 0 && rc.menu.page_size == 0) r << "0 0 0";
+        else {
+          r << (rc.menu.page_no + 1) << " " << (rc.menu.is_last_page ? 1 : 0) << " " << rc.menu.highlighted_candidate_index;
+          for (int i = 0; i < rc.menu.num_candidates; ++i)
+            r << " " << item_hex(size_t(rc.menu.page_no) * rc.menu.page_size + i, rc.menu.candidates[i].text,
+                                 rc.menu.candidates[i].comment);
+        }
+        api->free_context(&rc);
+      } else if (o == "h" || o == "o" || o == "v") {
+        long i = tk.num();
+        Bool ret = o == "h" ? api->highlight_candidate(sid, i)
+                 : o == "o" ? api->highlight_candidate_on_current_page(sid, i) : api->change_page(sid, i ? True : False);
+        if (ctx->composition().empty()) r << "COMPOSITION-LOST";
+        else r << (ret ? 1 : 0) << " 0 " << ctx->composition().back().selected_index;
+      } else if (o == "i") {
+        long from = tk.num(), n = tk.num();
+        RimeCandidateListIterator it = {0};
+        if (!api->candidate_list_from_index(sid, &it, from)) r << "0 0 0";
+        else {
+          r << "1 0 0";
+          for (long j = 0; j < n; ++j) {
+            if (!api->candidate_list_next(&it)) break;
+            r << " " << item_hex(it.index, it.candidate.text, it.candidate.comment);
+          }
+          api->candidate_list_end(&it);
+        }
+      } else if (o == "NP" || o == "PP" || o == "NC" || o == "PC") {
+        int key = o == "NP" ? 0xff56 : o == "PP" ? 0xff55 : o == "NC" ? 0xff54 : 0xff52;
+        api->process_key(sid, key, 0);
+        if (ctx->composition().empty()) r << "COMPOSITION-LOST";
+        else r << "1 0 " << ctx->composition().back().selected_index;
+      } else { tk.ok = false; }
+      out += r.str() + " ; ";
+    }
+    if (!tk.ok) { std::cout << "BADLINE ops\n"; continue; }
+    // the reference: a fresh session, same schema/options/input, whole list by the iterator
+    type_input(api, fresh, keys);
+    {
+      RimeCandidateListIterator it = {0};
+      std::string items;
+      size_t n = 0;
+      std::vector<std::string> seen;
+      bool nodup = true;
+      if (api->candidate_list_begin(fresh, &it)) {
+        while (api->candidate_list_next(&it)) {
+          items += " " + item_hex(it.index, it.candidate.text, it.candidate.comment);
+          std::string t = it.candidate.text;
+          for (auto& s : seen) if (s == t) nodup = false;
+          seen.push_back(t);
+          ++n;
+        }
+        api->candidate_list_end(&it);
+      }
+      out += "LC " + std::to_string(n) + items + " ; ND " + (nodup ? "1" : "0");
+    }
+    api->clear_composition(sid);
+    api->clear_composition(fresh);
+    std::cout << out << "\n";
+  }
+  for (auto& kv : sessions) { api->destroy_session(kv.second.a); api->destroy_session(kv.second.b); }
+  env.stop();
+  return 0;
+}
